@@ -133,10 +133,21 @@ Fixpoint eval_s (s : sstmt) (cls : clsstate) (a : pyarg) : clsstate * sresult :=
   | SsRequireFloat _ k => match a with PFloat _ => eval_s k cls a | POther => (cls, RTypeError) end
   | SsStore attr _ => match a with PFloat x => (upd cls attr x, RNone) | POther => (upd cls attr (c0 F), RNone) end
   end.
+(* ---------------------------------------------------------------- _generate_origin_obj / _generate_zero_obj: arrays that are zero except
+   for (at most) one entry given by a scalar expression in sqrt(dim) ([sd]) and the number of elements ([m] = len(self.vecs) / len(self.hss)) *)
+Inductive scal := SOne | SSqrtDim | SLen | SDiv (a b : scal).
+Inductive arr := AZeros | ASet1 (i : nat) (s : scal) | ASet2 (i j : nat) (s : scal).
+Fixpoint eval_sc (sd : F) (m : nat) (s : scal) : F :=
+  match s with SOne => c1 F | SSqrtDim => sd | SLen => @knat F m | SDiv a b => kdiv F (eval_sc sd m a) (eval_sc sd m b) end.
+Definition eval_arr1 (sd : F) (m : nat) (x : arr) : nat -> F :=
+  match x with ASet1 i s => fun a => if Nat.eqb a i then eval_sc sd m s else c0 F | _ => fun _ => c0 F end.
+Definition eval_arr2 (sd : F) (m : nat) (x : arr) : nat -> nat -> F :=
+  match x with ASet2 i j s => fun a b => if Nat.eqb a i && Nat.eqb b j then eval_sc sd m s else c0 F | _ => fun _ _ => c0 F end.
 End C01Glue.
 
 Arguments eval_tol {F} g te t. Arguments eval_b {F} g te be i b. Arguments eval {F} g te be i s. Arguments call {F} g params body i args.
 Arguments bind {F} params args. Arguments upd {A} e x v. Arguments np_atol {F}.
 Arguments PFloat {F} x. Arguments POther {F}. Arguments RVal {F} x. Arguments RNone {F}. Arguments RTypeError {F}.
 Arguments eval_s {F} s cls a.
+Arguments eval_sc {F} sd m s. Arguments eval_arr1 {F} sd m x _. Arguments eval_arr2 {F} sd m x _ _.
 Arguments g_settings {F} g. Arguments g_flag {F} g _. Arguments g_len {F} g _. Arguments g_prim {F} g _ _ _. Arguments Build_genv {F} _ _ _ _.
